@@ -574,8 +574,9 @@ def cross_checks(pm, ctx):
         else:
             ctx.violation("C16-e", u.relpath, f"{cls}.fit", "check_groups", "groups are not checked before training", line=f.lineno)
     # check_groups: decision table over abstract group lists
-    from .c16_extra import check_groups_table
+    from .c16_extra import check_groups_table, check_groups_completion
     check_groups_table(pm, ctx, "C16-e")
+    check_groups_completion(pm, ctx, "C16-e")
 
 
 def print_guards(pm, ctx, rid):
